@@ -188,6 +188,8 @@ pub fn run() -> i32 {
     chk(ro["burst32_answered"].as_u64() == Some(32), "32 simultaneous connections all answered", &mut real_fail);
     let th = &ro["threads_base_withserver_during_after6s"];
     chk(th[3].as_u64().unwrap_or(999) <= th[1].as_u64().unwrap_or(0), "threads back to (at most) the baseline 6.5 s after a burst of 32", &mut real_fail);
+    chk(ro["held12_answered"].as_u64() == Some(12), "12 connections that then stay open for 6 s are all answered", &mut real_fail);
+    chk(ro["threads_back_after_held12_closed_ms"].as_u64().is_some(), &format!("threads back to the level they had before (server idle for 6.5 s after the burst of 32) within 40 s after 12 connections, open for 6 s, were closed (during: {} threads)", ro["threads_during_held12"]), &mut real_fail);
     let report = json!({"scenarios_compared": mem.len(), "identical": same, "identical_only_after_a_replay_with_longer_waits": retried_ok, "mismatches": mismatches, "real_only": ro, "real_only_failures": real_fail});
     let _ = std::fs::create_dir_all(dir.join("evidence"));
     std::fs::write(dir.join("evidence").join("conformance.json"), serde_json::to_string_pretty(&report).unwrap()).expect("write");
